@@ -65,7 +65,19 @@ fn builtin(name: &str) -> Option<String>
     })
 }
 
-fn expr(e: &OptimizedExpr, rules: &BTreeSet<String>, deps: &mut Vec<String>) -> String
+/// The rules of the grammar at the pinned commit.  A SILENT rule (`_{ .. }`) that is not among them is a
+/// helper introduced since: it is inlined at its uses.  That preserves the meaning: a silent rule produces
+/// no pair and leaves the atomicity as it is (pest's `ParserState::rule` is not even called for it by the
+/// generator; in the model `run (ERule n RSilent false e) = run e`, lemma `silent_rule_transparent`).
+const PINNED_RULES: [&str; 17] = [
+    "WHITESPACE", "COMMENT", "rust_identifier", "string_value", "string_literal", "silent_string_value",
+    "silent_string_literal", "target_arg", "kvp_value", "kvp_modifiers", "kvp_key", "kvp_args", "macro_args",
+    "macro_name", "log_macro", "other_name", "file",
+];
+
+type Inline<'a> = BTreeMap<String, &'a OptimizedExpr>;
+
+fn expr(e: &OptimizedExpr, rules: &BTreeSet<String>, deps: &mut Vec<String>, inl: &Inline, stack: &mut Vec<String>) -> String
 {
     match e
     {
@@ -74,7 +86,18 @@ fn expr(e: &OptimizedExpr, rules: &BTreeSet<String>, deps: &mut Vec<String>) -> 
         OptimizedExpr::Range(a, b) => format!("(ERange {} {})", one_cp(a), one_cp(b)),
         OptimizedExpr::Ident(name) =>
         {
-            if rules.contains(name)
+            if let Some(body) = inl.get(name)
+            {
+                if stack.iter().any(|x| x == name)
+                {
+                    refuse(&format!("recursive silent helper rule {}", name));
+                }
+                stack.push(name.clone());
+                let r = expr(body, rules, deps, inl, stack);
+                stack.pop();
+                r
+            }
+            else if rules.contains(name)
             {
                 deps.push(name.clone());
                 format!("r_{}", name)
@@ -89,18 +112,18 @@ fn expr(e: &OptimizedExpr, rules: &BTreeSet<String>, deps: &mut Vec<String>) -> 
             }
         },
         OptimizedExpr::PeekSlice(_, _) => refuse("stack operation PEEK[..]"),
-        OptimizedExpr::PosPred(x) => format!("(EPos {})", expr(x, rules, deps)),
-        OptimizedExpr::NegPred(x) => format!("(ENeg {})", expr(x, rules, deps)),
+        OptimizedExpr::PosPred(x) => format!("(EPos {})", expr(x, rules, deps, inl, stack)),
+        OptimizedExpr::NegPred(x) => format!("(ENeg {})", expr(x, rules, deps, inl, stack)),
         OptimizedExpr::Seq(a, b) =>
         {
-            format!("(ESeq {} {})", expr(a, rules, deps), expr(b, rules, deps))
+            format!("(ESeq {} {})", expr(a, rules, deps, inl, stack), expr(b, rules, deps, inl, stack))
         },
         OptimizedExpr::Choice(a, b) =>
         {
-            format!("(EChoice {} {})", expr(a, rules, deps), expr(b, rules, deps))
+            format!("(EChoice {} {})", expr(a, rules, deps, inl, stack), expr(b, rules, deps, inl, stack))
         },
-        OptimizedExpr::Opt(x) => format!("(EOpt {})", expr(x, rules, deps)),
-        OptimizedExpr::Rep(x) => format!("(ERep {})", expr(x, rules, deps)),
+        OptimizedExpr::Opt(x) => format!("(EOpt {})", expr(x, rules, deps, inl, stack)),
+        OptimizedExpr::Rep(x) => format!("(ERep {})", expr(x, rules, deps, inl, stack)),
         OptimizedExpr::Skip(strings) =>
         {
             let items: Vec<String> = strings.iter().map(|s| cps(s)).collect();
@@ -126,12 +149,19 @@ pub fn translate(path: &str) -> String
                 .join(" / ")
         )),
     };
+    let inl: Inline = rules
+        .iter()
+        .filter(|r| r.ty == RuleType::Silent && !PINNED_RULES.contains(&r.name.as_str()))
+        .map(|r| (r.name.clone(), &r.expr))
+        .collect();
+    let rules: Vec<OptimizedRule> = rules.iter().filter(|r| !inl.contains_key(&r.name)).cloned().collect();
     let names: BTreeSet<String> = rules.iter().map(|r| r.name.clone()).collect();
     let mut bodies: BTreeMap<String, (String, Vec<String>, &OptimizedRule)> = BTreeMap::new();
     for r in &rules
     {
         let mut deps = Vec::new();
-        let body = expr(&r.expr, &names, &mut deps);
+        let mut stack = Vec::new();
+        let body = expr(&r.expr, &names, &mut deps, &inl, &mut stack);
         bodies.insert(r.name.clone(), (body, deps, r));
     }
     // topological order (source order among ready rules), refusing recursion
